@@ -22,7 +22,7 @@ Kinds == {"plainOK", "plainSepCon", "plainBadToken", "plainCtxWrite", "plainCanc
           "bwUpOK", "bwUpCancel", "bwUpRefused", "bwDownOK", "bwDownAbandon",
           "obsOK", "obsCancel", "obsFail", "obsSilentCancel", "obsAckedCancel",
           "pingOK", "pingCancel", "oneWay",
-          "srvReq", "srvReqNon", "srvReqNoResp", "srvReqHijack", "srvBwUpAbandon", "srvBwDownAbandon",
+          "srvReq", "srvReqNon", "srvReqNoResp", "srvReqHijack", "srvBwUpAbandon", "srvBwDownAbandon", "srvBwDownRetry",
           "tickEarly", "tickBw", "tickLate"}
 Enabled(s, k) == CASE k = "obsOK" -> s.obs < MaxObs
                    [] k = "obsCancel" -> s.obs > 0
@@ -35,6 +35,8 @@ Step(s, k) ==
     [] k \in {"srvReq", "srvReqNon", "srvReqNoResp", "srvReqHijack", "plainSepCon"} -> [s EXCEPT !.rcache = s.rcache + 1]
     [] k = "srvBwUpAbandon" -> [s EXCEPT !.bwRecv = s.bwRecv + 1, !.rcache = s.rcache + 1]
     [] k = "srvBwDownAbandon" -> [s EXCEPT !.bwSend = s.bwSend + 1, !.rcache = s.rcache + 1]
+    \* (the same request twice with one token, the transfer abandoned: one held response, two remembered replies)
+    [] k = "srvBwDownRetry" -> [s EXCEPT !.bwSend = s.bwSend + 1, !.rcache = s.rcache + 2]
     \* (the driver lets a request run out of retransmissions by sweeping up to 9 s ahead, past the transfer timeout)
     [] k \in {"tickBw", "plainExpire"} -> [s EXCEPT !.bwRecv = 0, !.bwSend = 0]
     [] k = "tickLate" -> [s EXCEPT !.bwRecv = 0, !.bwSend = 0, !.rcache = 0]
